@@ -187,8 +187,10 @@ package security
 // ---- decoder safety (C13): preconditions of helpers whose arguments size an allocation ---------
 
 //@ func deriveSessionKey (sessionKey, keyLen) (result, err)
-//@   props C13
+//@   props C13 C16
 //@   requires key_len_bounded: 0 <= keyLen && keyLen <= 64
+//@   assert before call hkdf.New #1 hkdf_of_the_secret_itself: [C16] len(arg1) == len(sessionKey) && (forall i :: 0 <= i && i < len(arg1) ==> arg1[i] == sessionKey[i]) && len(arg2) == 8 && len(arg3) == 6
+//@   ensures key_of_requested_length: [C16] err == nil ==> len(result) == keyLen
 
 //@ func (*SSLAuthenticator).exchangeSessionKey
 //@   props C13
@@ -608,6 +610,7 @@ package security
 
 //@ func deriveClaimKeyInfo (policy, secret) (result, err)
 //@   props C16
+//@   assert before call deriveSessionKey #1 key_of_the_secret_itself: [C16] arg0 == secret && arg1 == 32
 //@   ensures key_on_success: [C16] err == nil ==> result != nil && fresh(result) && result.Protocol == "AESGCM"
 //@   ensures no_key_on_failure: [C16] err != nil ==> result == nil
 
@@ -664,3 +667,87 @@ package security
 //@   assert before call Authenticator).validateTokenTiming #1 times_of_the_verified_payload: [C11] arg1 == claims && arg2 == cfg
 //@   ensures accepted_means_subject_present: [C11] err == nil ==> result != nil && result.Subject != ""
 //@   ensures rejected_has_no_claims: [C11] err != nil ==> result == nil
+
+//@ func (*Authenticator).performFSAuthenticationServer (a, ctx, negotiation, remote) (err)
+//@   props C18
+//@   requires given: a.stream != nil && negotiation != nil && negotiation.ServerConfig != nil
+//@   nocall [C18] no_link_following_stat: os.Stat
+//@   assert before call os.Lstat #1 stats_the_path_it_sent: [C18] arg0 == dirPath && dirPath != ""
+//@   assert before call os/user.LookupId #1 only_real_owner_only_dir: [C18] fmIsDir(mode) && mode & 134217728 == 0 && fmPerm(mode) == 448 && (stat.Nlink == 1 || stat.Nlink == 2)
+//@   assert before call os/user.LookupId #1 checks_are_of_the_stat_result: [C18] fsStats == old(fsStats) + 1 && fsLastStat == dirPath && clientResult == 0
+//@   ensures identity_is_the_owner_looked_up: [C18] err == nil ==> fsUserLookups == old(fsUserLookups) + 1 && negotiation.User == fsLookupName
+//@   ensures no_identity_without_verification: [C18] fsUserLookups == old(fsUserLookups) ==> err != nil && negotiation.User == old(negotiation.User)
+
+// ---- claim id grammar (C16): split on the last '#', session info is the bracketed tail, the key what follows ']' ----
+// claimShape(c, id, info, key): c is id '#' info key, where the '#' after id is the last one in c, info is bracketed and
+// nothing after it is a ']' -- the relation both the minter (by construction) and the strict parser (by its search) establish.
+//@ pred claimShape(c, id, info, key) = len(id) + 1 + len(info) + len(key) == len(c) && len(info) >= 2 && c[len(id)] == 35 && (forall j :: len(id) < j && j < len(c) ==> c[j] != 35) && c[len(id) + 1] == 91 && c[len(id) + len(info)] == 93 && (forall k :: len(id) + 1 + len(info) <= k && k < len(c) ==> c[k] != 93) && (forall i :: 0 <= i && i < len(id) ==> id[i] == c[i]) && (forall i :: 0 <= i && i < len(info) ==> info[i] == c[len(id) + 1 + i]) && (forall i :: 0 <= i && i < len(key) ==> key[i] == c[len(id) + 1 + len(info) + i])
+//@ func ParseClaimIDStrict (claimID) (result)
+//@   props C16
+//@   ensures fresh_result: result != nil && fresh(result) && result.raw == claimID
+//@   ensures split_on_last_hash: [C16] result.sessionInfo != "" ==> claimShape(claimID, result.sessionID, result.sessionInfo, result.sessionKey)
+//@   ensures no_info_means_no_session: [C16] result.sessionInfo == "" ==> result.sessionID == ""
+
+//@ func ExportSecSessionInfo (policy) (result, err)
+//@   props C16
+//@   loop 1 invariant few_exported: len(out) <= rangeindex + 1 && rangeindex + 1 <= 3
+//@   loop 3 invariant opened: len(b.buf) >= 1 && b.buf[0] == 91
+//@   ensures bracketed_and_hash_free: [C16] err == nil ==> len(result) >= 2 && result[0] == 91 && result[len(result) - 1] == 93 && (forall j :: 0 <= j && j < len(result) ==> result[j] != 35)
+//@   ensures nothing_on_error: [C16] err != nil ==> result == ""
+
+//@ func shortVersion (full) (result)
+//@   props C16
+//@   assigns nothing
+//@ func sortStrings (s)
+//@   props C16
+//@   assigns s
+
+//@ func randomHexKey (nbytes) (result, err)
+//@   props C16
+//@   requires small: 0 <= nbytes && nbytes <= 4096
+//@   ensures hex_only: [C16] err == nil ==> len(result) == 2 * nbytes && (forall i :: 0 <= i && i < len(result) ==> (48 <= result[i] && result[i] <= 57) || (97 <= result[i] && result[i] <= 102))
+
+// the minted identifier has the shape the strict parser recovers, over exactly the session id, exported info and secret
+// the session is registered with
+//@ func MintClaimSession (cache, opts) (result, err)
+//@   props C16
+//@   assert before call ImportSecSessionInfo #1 policy_is_the_exported_info: [C16] arg0 == sessionInfo
+//@   assert before call deriveClaimKeyInfo #1 key_from_the_minted_secret: [C16] arg0 == policy && arg1 == secret
+//@   assert before call NewSessionEntry #1 entry_of_the_claim: [C16] arg0 == sessionID && arg2 == keyInfo && arg2 != nil && arg3 == policy
+//@   assert before call SessionCache).Store #1 registers_the_entry: [C16] arg1 == entry && arg0 == cache
+//@   ensures claim_has_the_parsed_shape: [C16] err == nil ==> result != nil && result.sessionID == sessionID && claimShape(result.claimID, sessionID, sessionInfo, secret) && len(secret) == 64
+//@   ensures none_on_error: [C16] err != nil ==> result == nil
+
+// the shape determines its parts: whoever parses a minted identifier recovers the minter's session id, info and secret
+//@ lemma claim_shape_fixes_the_split
+//@   props C16
+//@   var c string id1 string info1 string key1 string id2 string info2 string key2 string
+//@   hyp claimShape(c, id1, info1, key1)
+//@   hyp claimShape(c, id2, info2, key2)
+//@   concl len(id1) == len(id2) && len(info1) == len(info2) && len(key1) == len(key2)
+//@ end
+// (given the split, the parts agree character by character)
+//@ lemma claim_shape_fixes_the_session_id
+//@   props C16
+//@   var c string id1 string info1 string key1 string id2 string info2 string key2 string
+//@   hyp claimShape(c, id1, info1, key1)
+//@   hyp claimShape(c, id2, info2, key2)
+//@   hyp len(id1) == len(id2) && len(info1) == len(info2) && len(key1) == len(key2)
+//@   concl forall i :: 0 <= i && i < len(id1) ==> id1[i] == id2[i]
+//@ end
+//@ lemma claim_shape_fixes_the_session_info
+//@   props C16
+//@   var c string id1 string info1 string key1 string id2 string info2 string key2 string
+//@   hyp claimShape(c, id1, info1, key1)
+//@   hyp claimShape(c, id2, info2, key2)
+//@   hyp len(id1) == len(id2) && len(info1) == len(info2) && len(key1) == len(key2)
+//@   concl forall i :: 0 <= i && i < len(info1) ==> info1[i] == info2[i]
+//@ end
+//@ lemma claim_shape_fixes_the_secret
+//@   props C16
+//@   var c string id1 string info1 string key1 string id2 string info2 string key2 string
+//@   hyp claimShape(c, id1, info1, key1)
+//@   hyp claimShape(c, id2, info2, key2)
+//@   hyp len(id1) == len(id2) && len(info1) == len(info2) && len(key1) == len(key2)
+//@   concl forall i :: 0 <= i && i < len(key1) ==> key1[i] == key2[i]
+//@ end
